@@ -1,5 +1,6 @@
 import AL.Model.Matrix
 import AL.Spec.RawYaml
+import AL.Lemmas.MatrixDup
 /-
   C19 — matrix duplicate and exclude checks are exact and order-insensitive.
   Statements; proved theorems are added below by name.
@@ -57,5 +58,220 @@ def expr_never_statement : Prop :=
 /-- (i) equal values are subsets of each other (an exclude entry copied from a row always matches). -/
 def equals_subset_statement : Prop :=
   ∀ a b : Raw, RawWF a → RawWF b → equals a b = true → subset a b = true
+
+
+/-! ## Sample values used in the `example`s
+
+`exA` is `{k: [a, {m: b, n: c}], j: d}`; `exB` is the same mapping with the members of both the outer
+and the inner mapping in the opposite order and at other positions; `exC` differs in one leaf. -/
+
+def p1 : P := ⟨1, 1⟩
+def p2 : P := ⟨2, 5⟩
+def p3 : P := ⟨3, 9⟩
+def exA : Raw :=
+  .obj [("k", .arr [.str "a" p1, .obj [("m", .str "b" p1), ("n", .str "c" p1)] p1] p1),
+        ("j", .str "d" p1)] p1
+def exB : Raw :=
+  .obj [("j", .str "d" p2),
+        ("k", .arr [.str "a" p2, .obj [("n", .str "c" p2), ("m", .str "b" p2)] p2] p2)] p2
+def exB' : Raw :=
+  .obj [("k", .arr [.str "a" p3, .obj [("n", .str "c" p3), ("m", .str "b" p3)] p3] p3),
+        ("j", .str "d" p3)] p3
+def exC : Raw :=
+  .obj [("j", .str "d" p3),
+        ("k", .arr [.str "a" p3, .obj [("n", .str "X" p3), ("m", .str "b" p3)] p3] p3)] p3
+/-- ill-formed (duplicate key `k`), cannot come from a Go map -/
+def exDup : Raw := .obj [("k", .str "x" p1), ("k", .str "y" p1)] p1
+def exDup2 : Raw := .obj [("k", .str "x" p1), ("k", .str "x" p1)] p1
+def exKJ : Raw := .obj [("k", .str "x" p2), ("j", .str "y" p2)] p2
+
+theorem exA_wf : RawWF exA := by simp [exA, RawWF, RawWFProps, RawWFList]
+theorem exB_wf : RawWF exB := by simp [exB, RawWF, RawWFProps, RawWFList]
+theorem exB'_wf : RawWF exB' := by simp [exB', RawWF, RawWFProps, RawWFList]
+theorem exC_wf : RawWF exC := by simp [exC, RawWF, RawWFProps, RawWFList]
+theorem exKJ_wf : RawWF exKJ := by simp [exKJ, RawWF, RawWFProps]
+
+/-! ## (a) -/
+
+/-- (a), in fact without any well-formedness hypothesis. -/
+theorem equals_iff_same_all : ∀ a b : Raw, equals a b = true ↔ Same a b := equals_iff_same
+
+theorem equals_iff : equals_iff_statement := fun a b _ _ => equals_iff_same a b
+
+example : equals exA exB = true := by decide
+example : Same exA exB := (equals_iff exA exB exA_wf exB_wf).1 (by decide)
+example : equals exA exC = false := by decide
+example : ¬ Same exA exC := fun h => by
+  have := (equals_iff exA exC exA_wf exC_wf).2 h
+  revert this; decide
+
+/-! ## (b) -/
+
+theorem equals_symm : equals_symm_statement := AL.Matrix.equals_symm
+
+example : equals exA exB = true ∧ equals exB exA = true := by decide
+/-- The hypothesis is necessary: with a duplicate key (impossible for a Go map) `equals` is not
+symmetric: `{k: x, k: x}` vs `{k: x, j: y}`. -/
+example : equals exDup2 exKJ = true ∧ equals exKJ exDup2 = false := by decide
+
+/-! ## (c) -/
+
+theorem equals_refl : equals_refl_statement := AL.Matrix.equals_refl
+
+example : equals exA exA = true := by decide
+/-- The hypothesis is necessary: `{k: x, k: y}` is not equal to itself. -/
+example : equals exDup exDup = false := by decide
+
+/-- transitivity, in fact without any well-formedness hypothesis -/
+theorem equals_trans_all :
+    ∀ a b c : Raw, equals a b = true → equals b c = true → equals a c = true :=
+  AL.Matrix.equals_trans
+
+theorem equals_trans : equals_trans_statement :=
+  fun a b c _ _ _ => AL.Matrix.equals_trans a b c
+
+example : equals exA exB = true ∧ equals exB exB' = true ∧ equals exA exB' = true := by decide
+
+/-! ## (d) -/
+
+/-- (d), original formulation. The second disjunct is needed because a diagnostic only carries
+positions: a report for another value at the same position is indistinguishable. -/
+theorem dup_exact : dup_exact_statement := by
+  intro row vs _ i hi
+  rw [dupRow_eq]
+  constructor
+  · rintro ⟨q, hmem, _⟩
+    obtain ⟨k, _, hd⟩ := List.mem_filterMap.1 hmem
+    obtain ⟨hk', j, hj, he, _, hdq⟩ := dupAt_eq_some hd
+    injection hdq with hpos _ _
+    by_cases hki : k = i
+    · subst hki; exact Or.inl ⟨j, hj, he⟩
+    · exact Or.inr ⟨k, hk', hki, hpos.symm, j, hj, he⟩
+  · rintro (⟨j, hj, he⟩ | ⟨k, hk, _, hpos, j, hj, he⟩)
+    · obtain ⟨d, hd⟩ := Option.isSome_iff_exists.1 ((dupAt_isSome_iff row vs i hi).2 ⟨j, hj, he⟩)
+      obtain ⟨_, j', hj', _, _, rfl⟩ := dupAt_eq_some hd
+      exact ⟨_, List.mem_filterMap.2 ⟨i, List.mem_range.2 hi, hd⟩, trivial⟩
+    · obtain ⟨d, hd⟩ := Option.isSome_iff_exists.1 ((dupAt_isSome_iff row vs k hk).2 ⟨j, hj, he⟩)
+      obtain ⟨_, j', hj', _, _, rfl⟩ := dupAt_eq_some hd
+      rw [← hpos]
+      exact ⟨_, List.mem_filterMap.2 ⟨k, List.mem_range.2 hk, hd⟩, trivial⟩
+
+/-- (d′) A cleaner and stronger formulation of (d) in terms of indices (the original statement
+cannot tell apart two values carrying the same position, hence its second disjunct). With
+`dupAt row vs i` (see `AL/Lemmas/MatrixDup.lean`) = "if some earlier value `vs[j]`, `j < i`, is equal
+to `vs[i]`, the diagnostic naming the *first* such `vs[j]`":
+
+1. the diagnostics of a row are exactly the `dupAt` of its indices, in order;
+2. index `i` is reported iff some earlier value is equal to it (not merely an earlier *kept* value);
+3. the reported previous position is that of the least such `j`.
+
+No well-formedness hypothesis is needed (only transitivity of `equals` is used, which holds
+unconditionally). -/
+def dup_exact_statement' : Prop :=
+  ∀ (row : String) (vs : List Raw),
+    dupRow row vs [] = (List.range vs.length).filterMap (dupAt row vs) ∧
+    (∀ i (hi : i < vs.length),
+      (dupAt row vs i).isSome = true ↔
+        ∃ j, ∃ (hj : j < i), equals (vs[j]'(Nat.lt_trans hj hi)) vs[i] = true) ∧
+    (∀ i d, dupAt row vs i = some d →
+      ∃ (hi : i < vs.length) (j : Nat) (hj : j < i),
+        equals (vs[j]'(Nat.lt_trans hj hi)) vs[i] = true ∧
+        (∀ j' (hj' : j' < j),
+          equals (vs[j']'(Nat.lt_trans hj' (Nat.lt_trans hj hi))) vs[i] = false) ∧
+        d = .dup (vs[i]).pos row (vs[j]'(Nat.lt_trans hj hi)).pos)
+
+theorem dup_exact' : dup_exact_statement' := fun row vs =>
+  ⟨dupRow_eq row vs, dupAt_isSome_iff row vs, fun _ _ h => dupAt_eq_some h⟩
+
+/-- row `[A, C, B, B']` (`A`, `B`, `B'` equal modulo member order): `B` and `B'` are reported, both
+against `A`, although `B'` is also equal to the (not kept) `B`. -/
+example : dupRow "os" [exA, exC, exB, exB'] [] = [.dup p2 "os" p1, .dup p3 "os" p1] := by decide
+example : (List.range 4).filterMap (dupAt "os" [exA, exC, exB, exB']) =
+    [.dup p2 "os" p1, .dup p3 "os" p1] := by decide
+
+/-! ## (e) -/
+
+theorem dup_count_perm : dup_count_perm_statement :=
+  fun row _ _ wf h => dupRow_length_perm row wf h
+
+theorem exPerm : [exA, exC, exB, exB'].Perm [exB, exB', exC, exA] :=
+  (List.perm_append_comm (l₁ := [exA]) (l₂ := [exC, exB, exB'])).trans
+    ((List.perm_append_comm (l₁ := [exC]) (l₂ := [exB, exB'])).append_right [exA])
+
+/-- two reports for `[A, C, B, B']` and for its permutation `[B, B', C, A]` (there against `B`) -/
+example : dupRow "os" [exB, exB', exC, exA] [] = [.dup p3 "os" p2, .dup p1 "os" p2] := by decide
+example : (dupRow "os" [exA, exC, exB, exB'] []).length = (dupRow "os" [exB, exB', exC, exA] []).length :=
+  dup_count_perm "os" _ _ (by simp [exA_wf, exB_wf, exB'_wf, exC_wf]) exPerm
+
+/-! ## (f) -/
+
+theorem equals_member_perm : equals_member_perm_statement := by
+  intro ps qs p b wf h
+  exact ⟨equals_obj_perm_left h p p b, equals_obj_perm_right ((rawWF_obj ps p).1 wf).1 h p p b⟩
+
+/-- "At any depth": values that are `Same` (equal up to the order of members anywhere inside) are
+interchangeable on either side of `equals`. -/
+theorem equals_congr_same (a a' b : Raw) (wa : RawWF a) (wa' : RawWF a')
+    (h : Same a a') : equals a b = equals a' b ∧ equals b a = equals b a' := by
+  have h1 := (equals_iff_same a a').2 h
+  have h2 := (AL.Matrix.equals_symm a a' wa wa').symm.trans h1
+  exact ⟨equals_congr_left wa wa' h1, equals_congr_right h1 h2⟩
+
+example : equals exA exB = equals exB' exB ∧ equals exC exA = equals exC exB' := by decide
+
+/-! ## (g) -/
+
+theorem subset_member_perm : subset_member_perm_statement := by
+  intro ps qs p b wf h
+  exact ⟨subset_obj_perm_left ((rawWF_obj ps p).1 wf).1 h p p b, subset_obj_perm_right h p p b⟩
+
+/-- filter `{k: [a, {m: b}]}`-style: `{j: d}` and `{k: [a, {n: c}]}` are subsets of `exA`/`exB`. -/
+def exF : Raw := .obj [("k", .arr [.str "a" p3, .obj [("n", .str "c" p3)] p3] p3)] p3
+example : subset exA exF = true ∧ subset exB exF = true ∧ subset exF exA = false := by decide
+
+/-! ## (h) -/
+
+theorem expr_never : expr_never_statement := by
+  refine ⟨fun v s p h => subset_str_right v s p h, ?_, ?_⟩
+  · intro m h
+    unfold checkExclude
+    cases hex : m.excl with
+    | none => rfl
+    | some ex =>
+      cases hinc : m.incl with
+      | none => rw [hinc] at h; cases h
+      | some inc => rw [hinc] at h; simp only at h; simp [h]
+  · intro m h
+    unfold checkDuplicates
+    rw [List.flatMap_eq_nil_iff]
+    intro r hr
+    rw [h r hr]
+
+/-- Supplements to (h), matching its prose: an expression *value* matches every filter, and an
+`exclude` assignment for a row given by an expression is never reported. -/
+theorem expr_value_matches (w : String) (p : P) (s : Raw) (h : containsExpr w = true) :
+    subset (.str w p) s = true := by
+  cases s <;> simp [subset, h]
+
+theorem expr_row_ignored (ignored : List String) (rows : RowMap) (a : Assign)
+    (h : a.id ∈ ignored) : excludeAssign ignored rows a = [] := by
+  simp [excludeAssign, h]
+
+example : containsExpr "x-${{ matrix.os }}" = true ∧ subset exA (.str "x-${{ matrix.os }}" p1) = true := by
+  decide
+/-- an expression *value* matches any filter, even a mapping -/
+example : subset (.str "${{ fromJSON(x) }}" p1) exA = true := by decide
+
+/-! ## (i) -/
+
+theorem equals_subset : equals_subset_statement := AL.Matrix.equals_subset
+
+example : equals exA exB = true ∧ subset exA exB = true ∧ subset exB exA = true := by decide
+/-- no hypothesis about expressions is needed: equal strings containing `${{ }}` are subsets by the
+first branch of `isYAMLValueSubset` -/
+example : equals (.str "${{ a }}" p1) (.str "${{ a }}" p2) = true ∧
+    subset (.str "${{ a }}" p1) (.str "${{ a }}" p2) = true := by decide
+/-- well-formedness is necessary: `{k: x, k: x}` equals `{k: x, j: y}` but is not a superset of it. -/
+example : equals exDup2 exKJ = true ∧ subset exDup2 exKJ = false := by decide
 
 end AL.C19
